@@ -8,9 +8,8 @@ Definition is_some {A} (o : option A) : bool := match o with Some _ => true | No
 Lemma run_word_final : forall w c d obs, is_some (fst (run_word c d w obs)) = final (is_some c) w.
 Proof.
   induction w as [|e r IH]; intros c d obs; simpl; [reflexivity|].
-  destruct e; simpl; try reflexivity.
-  - rewrite IH. destruct c; reflexivity.
-  - rewrite IH. reflexivity.
+  destruct e; simpl; try reflexivity; try apply IH.
+  rewrite IH. destruct c; reflexivity.
 Qed.
 
 Theorem optim_history_independent : forall calls,
@@ -30,7 +29,7 @@ Lemma run_word_own_data : forall w d c obs, (c = None \/ c = Some d) -> Forall (
     Forall (fun x => x = d) (snd (run_word c d w obs)).
 Proof.
   induction w as [|e r IH]; intros d c obs Hc Ho; simpl; [exact Ho|].
-  destruct e; simpl; try exact Ho.
+  destruct e; simpl; try exact Ho; try (apply IH; assumption).
   - apply IH.
     + right. destruct Hc as [Hc|Hc]; subst; reflexivity.
     + apply Forall_app. split; [exact Ho|]. destruct Hc as [Hc|Hc]; subst; simpl; constructor; auto.
